@@ -17,5 +17,8 @@ CLAIMS["C04"] = dict(
 CLAIMS["C05"] = dict(
     text="Unbounded proof (any number of rows, links and any real values) of the keyring mechanics of timed compartments: row 0 is emptied exactly each step, duration-preserving links never leave from row 0, every other row moves down by exactly one row per step keeping its content minus recorded outflows plus duration-preserving inflows, and all other inflows enter the last row. The row count (FPSTD) clause is added with TimedCompartment.preallocate.",
     note=_REAL + "; duration-preserving inflows are assumed to come from a group with the same number of rows (the unequal-rows branches of TimedCompartment.update are not under contract)")
+CLAIMS["C11"] = dict(
+    text="Proof over all real inputs (spending, unit cost, capacity constraint, saturation, number eligible, step size) that Program.get_capacity and Program.get_prop_covered return a capacity that is spending(*dt for one-off)/unit cost capped by the constraint, and a coverage in [0,1] that is capacity/eligible when unconstrained and below 1, 1 (or min(saturation,1)) when nobody is eligible, never above the saturation level, and monotone in spending/capacity (relational obligation over two executions); the caller's spending array is not modified.",
+    note="REAL arithmetic; verified for arrays of length 1 with symbolic contents -- the step to any length assumes numpy ufuncs act element-wise; TimeSeries.interpolate/has_data/units are replaced by ghost values (assumed external contract); exp is uninterpreted with the axioms exp>0, exp(0)=1, monotone; +-inf handled by path splitting on the mask of np.divide; overwrite precedence in ProgramSet.get_* is not yet under contract")
 NOT_APPLICABLE = {}
 NOTES = "Checks exit 0 (all obligations discharged), 1 (a registered obligation refuted: VIOLATION line, replay on real objects), 2 (undecided: unknown/unsupported, never reported as a violation), 3 (checker error: vacuity, zero obligations, internal error)."
